@@ -320,15 +320,19 @@ class ApiCloseHandler(NbdimeHandler, APIHandler):
         # Fail if no exit code is supplied:
         fallback = int(self.request.headers.get('exit_code', 1))
         try:
-            self.application.exit_code = self.get_argument('exitCode')
+            exit_code = self.get_argument('exitCode')
         except web.MissingArgumentError:
             try:
-                self.application.exit_code = json.loads(self.request.body).get('exitCode', fallback)
+                exit_code = json.loads(self.request.body).get('exitCode', fallback)
             except json.JSONDecodeError:
-                self.application.exit_code = fallback
+                exit_code = fallback
 
-        if isinstance(self.application.exit_code, str):
-            self.application.exit_code = int(self.application.exit_code, 10)
+        if isinstance(exit_code, str):
+            exit_code = int(exit_code, 10)
+        if not isinstance(exit_code, int) or isinstance(exit_code, bool):
+            # (null would make the tool exit with status 0: success)
+            raise web.HTTPError(400, 'The exit code has to be an integer.')
+        self.application.exit_code = exit_code
 
         _logger.info('Closing server on remote request (%d)', self.application.exit_code)
         self.finish()
